@@ -56,13 +56,15 @@ def arg_for(call, g, p, detail):
 
 
 class ValueFlow:
-    def __init__(self, ctx, sources=(T.BUILD_X,), live=None, max_depth=40):
+    def __init__(self, ctx, sources=(T.BUILD_X,), live=None, max_depth=40, param_stop=()):
         self.ctx = ctx
         self.sources = set(sources)
+        self.param_stop = set(param_stop)
         self.live = live
         self.max_depth = max_depth
         self._rd = {}
         self._memo = {}
+        self._cuts = 0
         self._sites = {}
         for evs in ctx.cg.events.values():
             for ev in evs:
@@ -165,12 +167,14 @@ class ValueFlow:
             return self._tuple_elem(e[1], e[2], f, at, depth, stack)
         key = (id(e), f.qual, id(at) if isinstance(e, ast.Name) else 0)
         if key in stack:
+            self._cuts += 1
             return set()
         if key in self._memo:
             return self._memo[key]
         stack = stack | {key}
+        before = self._cuts
         res = self._o2(e, f, at, depth, stack)
-        if depth < 6:
+        if self._cuts == before:
             self._memo[key] = res
         return res
 
@@ -268,11 +272,20 @@ class ValueFlow:
     def _def_value(self, node, name, f, d, stack):
         key = ("def", node.id, name, f.qual)
         if key in stack:
+            self._cuts += 1
             return set()
+        if key in self._memo:
+            return self._memo[key]
         stack = stack | {key}
         if d > self.max_depth:
             return {Origin("ext", "depth-limit", frozenset())}
-        d += 1
+        before = self._cuts
+        res = self._def_value2(node, name, f, d + 1, stack)
+        if self._cuts == before:
+            self._memo[key] = res
+        return res
+
+    def _def_value2(self, node, name, f, d, stack):
         s = node.ast
         if node.kind == "for":
             return self._add_ops(self._o(s.iter, f, s.iter, d, stack), "elem")
@@ -301,6 +314,13 @@ class ValueFlow:
             return out
         if isinstance(s, ast.AnnAssign) and s.value is not None:
             return self._target_value(s.target, s.value, name, f, s, d, stack)
+        if isinstance(s, ast.Expr) and isinstance(s.value, ast.Call) and isinstance(s.value.func, ast.Attribute) and isinstance(s.value.func.value, ast.Name) and s.value.func.value.id == name:
+            # local container mutation: previous content + the new element(s)
+            out = self._prev_value(name, f, node, d, stack)
+            if s.value.func.attr in ("append", "extend", "insert", "add", "update", "setdefault"):
+                for a in s.value.args:
+                    out |= self._add_ops(self._o(a, f, s, d, stack), "elem")
+            return out
         for sub in ast.walk(s) if isinstance(s, ast.AST) else []:
             if isinstance(sub, ast.NamedExpr) and isinstance(sub.target, ast.Name) and sub.target.id == name:
                 return self._o(sub.value, f, s, d, stack)
@@ -377,6 +397,8 @@ class ValueFlow:
     def _param(self, f, name, d, stack):
         if name == f.self_name:
             return {Origin("new", "self", frozenset())}
+        if f.qual in self.param_stop:
+            return {Origin("param", f"{f.local}.{name}", frozenset())}
         sites = self._sites.get(f.qual, [])
         if name in (f.vararg, f.kwarg):
             return {Origin("api", f"{f.local}.*{name}", frozenset())}
